@@ -284,7 +284,7 @@ func replayViolation(prog *Program, prop string, v violation, path string) bool 
 	var sb strings.Builder
 	fmt.Fprintf(&sb, "property: %s\nfailed obligation: %s\nat: %s\nreason: %s\n", prop, v.obl, v.pos, v.reason)
 	confirmed := false
-	if v.oblRef != nil {
+	if v.oblRef != nil || strings.HasSuffix(v.obl, "#contract-binding") {
 		ok, txt := tryReplay(prog, v)
 		confirmed = ok
 		sb.WriteString(txt)
